@@ -104,9 +104,12 @@ theorem C06_candidates (cfg : Cfg) (hcfg : cfg.tagPred = true) (m : WModel) (hm 
   | none => rfl
   | some tm => simp only [specCandidates_eq]
 
-/-- a model without tag categories: `fill_tags` leaves the sentence as it is -/
+/-- a model without tag categories: `fill_tags` leaves text, boundaries, tags and tag count as they are; it only (re)creates
+the per-character score slots, empty, when score storing is enabled (so `tag_candidates` reports no candidates) -/
 theorem C06_no_categories (cfg : Cfg) (m : WModel) (p : Predictor) (hp : Predictor.new cfg m true = .ok p)
-    (hn : specNTags m = 0) (s : Sentence) : p.predictTags s = .ok s := by
+    (hn : specNTags m = 0) (s : Sentence) :
+    p.predictTags s =
+      .ok { s with tagScores := if p.storeTagScores then List.replicate s.types.length none else [] } := by
   obtain ⟨_, h1, h2, _⟩ := C06L.new_tag_ok cfg m p hp
   unfold Predictor.predictTags
   rw [h1]
